@@ -130,6 +130,20 @@ Proof. exact src_prepare_tasks_bwd_eq. Qed.
 Theorem C06_src_prepare_init_state : forall w, src_prepare_tasks w (map raw_dyn w) = Ok (dy (init_state w), tt).
 Proof. exact src_prepare_init_state. Qed.
 
+(* ---- calc itself from the source text (gen/SrcPass.v: src_forward_calc / src_backward_calc; Sched/SrcCalcMain.v): run on
+   the user's values, the translated calc is related to the model's [forward] / [backward] - same outcome class, and on
+   success the same dates, amounts and usage rows.  Not in the translation: clone() (the scheduler's view [w] IS the clone,
+   C10), _check_loops (cycles of plain dependencies, which no WBS built through the API has, C01), the Schedule object. ---- *)
+From PJ Require Import Sched.SrcCalcMain.
+
+Theorem C06_src_forward_calc : forall cfg w ds l cl, src_forward_calc cfg w (map raw_dyn w) = Ok (ds, l, cl) ->
+  exists st, forward cfg w = Ok st /\ dy st = ds /\ lg st = l /\ same_elts (calc st) cl.
+Proof. exact src_forward_calc_Ok. Qed.
+
+Theorem C06_src_backward_calc : forall cfg w ds l cl, src_backward_calc cfg w (map raw_dyn w) = Ok (ds, l, cl) ->
+  exists st, backward cfg w = Ok st /\ dy st = ds /\ lg st = l /\ same_elts (calc st) cl.
+Proof. exact src_backward_calc_Ok. Qed.
+
 Print Assumptions C06_dates_forward.
 Print Assumptions C06_dates_backward.
 Print Assumptions C06_forward_reaches_all.
@@ -146,3 +160,5 @@ Print Assumptions C06_src_backward_pass.
 Print Assumptions C06_src_prepare_tasks.
 Print Assumptions C06_src_prepare_tasks_backward.
 Print Assumptions C06_src_prepare_init_state.
+Print Assumptions C06_src_forward_calc.
+Print Assumptions C06_src_backward_calc.
